@@ -74,7 +74,7 @@ func failureEdges(call ssa.Instruction) []core.Edge {
 }
 
 func checkC07(c *core.Ctx, l *core.Ledger) {
-	l.Explanation = "Static clauses of C07 on package compile: (LOOKUP-ORDER) type, constant and service references try the whole name in the current scope first and split at the first '.' only on the failure edge of that lookup (constants: enum item between the two); (RESOLVE-LINKED) since Link is once-guarded, a definition is bound in the scope of its first Link call: every definition found by scope.LookupType/LookupService/LookupConstant is linked with that same scope before it is returned, wrapped or stored by the resolver; (FIELD-RELINK) every TypeSpec-typed field of a spec is overwritten by the result of linking it before its owner's Link can succeed, and ServiceSpec.Parent comes from resolveService; (INCLUDE-ONCE) an already loaded module is returned before any read, and a module is registered before its includes are gathered; (CAST-AFTER-LINK) defaults and constants are cast against the linked type; (LINK-PHASE) typestate: state that Link methods derive from nested Link results (computed: TypedefSpec.root) must not be read, in code reachable from compiler.link, on a spec that can still be in progress — every reader call site is listed and discharged only when the value read is merely matched against leaf (scalar/enum) spec types, for which a complete and an in-progress typedef give the same outcome. (TYPE-IDENTITY) nothing in compile decides that two type specifications are the same by comparing their ThriftName()s (an ==/!= of two names, or a seen-set keyed by them): names are local to the defining file, so a cast or a lookup keyed that way confuses same-named types of different files. (MODULE-IDENTITY) no visited-set or memo table in compile, gen or the command is keyed by a module's Name (the base name of its file): the identity of a module is its ThriftPath, so that every reachable file is linked exactly once. The map-order clause is decided by C10's MAPORD rule on the same loops. (INCLUDE-SCOPE) getIncludedScope returns on success only what the scope's include table holds for the prefix. NOT decided: that the bound definition is the right one on concrete programs."
+	l.Explanation = "Static clauses of C07 on package compile: (LOOKUP-ORDER) type, constant and service references try the whole name in the current scope first and split at the first '.' only on the failure edge of that lookup (constants: enum item between the two); (RESOLVE-LINKED) since Link is once-guarded, a definition is bound in the scope of its first Link call: every definition found by scope.LookupType/LookupService/LookupConstant is linked with that same scope before it is returned, wrapped or stored by the resolver; (FIELD-RELINK) every TypeSpec-typed field of a spec is overwritten by the result of linking it before its owner's Link can succeed, and ServiceSpec.Parent comes from resolveService; (INCLUDE-ONCE) an already loaded module is returned before any read, and a module is registered before its includes are gathered; (CAST-AFTER-LINK) defaults and constants are cast against the linked type; (CAST-CALLER) FieldSpec.Link hands every default that is not nil to that call: no path without an error skips it except through a nil test on the default. (LINK-PHASE) typestate: state that Link methods derive from nested Link results (computed: TypedefSpec.root) must not be read, in code reachable from compiler.link, on a spec that can still be in progress — every reader call site is listed and discharged only when the value read is merely matched against leaf (scalar/enum) spec types, for which a complete and an in-progress typedef give the same outcome. (TYPE-IDENTITY) nothing in compile decides that two type specifications are the same by comparing their ThriftName()s (an ==/!= of two names, or a seen-set keyed by them): names are local to the defining file, so a cast or a lookup keyed that way confuses same-named types of different files. (MODULE-IDENTITY) no visited-set or memo table in compile, gen or the command is keyed by a module's Name (the base name of its file): the identity of a module is its ThriftPath, so that every reachable file is linked exactly once. The map-order clause is decided by C10's MAPORD rule on the same loops. (INCLUDE-SCOPE) getIncludedScope returns on success only what the scope's include table holds for the prefix. NOT decided: that the bound definition is the right one on concrete programs."
 	l.RuleText = "one obligation per reference resolver / spec field / reader call site"
 	l.Assumptions = []string{"a typedef can be in progress at a default/constant cast only if a struct lies on its target chain (so its root is never a scalar or enum)"}
 
@@ -479,6 +479,7 @@ func checkC07(c *core.Ctx, l *core.Ledger) {
 		l.Check(len(why) == 0, "CAST-AFTER-LINK", n.fn, c.Rel(f.Pos()), "the value is cast against the already linked type and the result replaces it", strings.Join(why, "; "))
 	}
 	l.Floor("CAST-AFTER-LINK", 2)
+	checkCastCaller(c, l, "CAST-CALLER")
 
 	// 5. LINK-PHASE
 	checkLinkPhase(c, l)
